@@ -92,6 +92,12 @@ def T():
         k: Any = 7
         o: Optional[torch.Tensor] = None
 
+    @deco(autocast=True)
+    class C15AutoNest:
+        z: torch.Tensor
+        inner: C15Dec = None      # a nested tensorclass field that starts as None
+        tag: Any = "t"
+
     class C15SubFrozen(TensorClass["frozen"]):
         x: torch.Tensor
         y: torch.Tensor
@@ -114,7 +120,7 @@ def T():
         o: Optional[torch.Tensor] = None
 
     classes = {}
-    for c in (C15Dec, C15Sub, C15Nest, C15SubNest, C15Frozen, C15Shadow, C15Auto, C15NoCast, C15SubFrozen, C15SubNoCast, C15SubAuto):
+    for c in (C15Dec, C15Sub, C15Nest, C15SubNest, C15Frozen, C15Shadow, C15Auto, C15NoCast, C15SubFrozen, C15SubNoCast, C15SubAuto, C15AutoNest):
         c.__module__ = __name__
         c.__qualname__ = c.__name__
         globals()[c.__name__] = c
@@ -131,7 +137,7 @@ CLASS_INFO = {
     "SubNest": ("subclass", [], True), "Frozen": ("decorator", ["frozen"], False), "Shadow": ("decorator", ["shadow"], False),
     "Auto": ("decorator", ["autocast"], False), "NoCast": ("decorator", ["nocast"], False),
     "SubFrozen": ("subclass", ["frozen"], False), "SubNoCast": ("subclass", ["nocast"], False),
-    "SubAuto": ("subclass", ["autocast"], False),
+    "SubAuto": ("subclass", ["autocast"], False), "AutoNest": ("decorator", ["autocast"], False),
 }
 LAYOUTS = ["plain", "lazy", "lazyhet", "legacy", "named"]
 BS = (3, 2)
@@ -149,18 +155,23 @@ def _leaf(bs, feat, base):
     return (torch.arange(n, dtype=torch.float32).reshape(*bs, *feat) % 7) + base
 
 
-def _inst(cname, bs, salt=0, sval="hi"):
+def _inst(cname, bs, salt=0, sval="hi", names=None):
     """one plain instance through the public constructor"""
     t = T()
     C = t["classes"][cname]
     x = _leaf(bs, (), 1 + salt)
     y = _leaf(bs, (4,), 2 + salt)
+    kw = {"batch_size": list(bs)}
+    if names is not None:
+        kw["names"] = names
     if cname in ("Nest", "SubNest"):
         inner = _inst("Dec" if cname == "Nest" else "Sub", bs, salt, sval)
-        return C(inner=inner, z=_leaf(bs, (2,), 3 + salt), tag={"k": 1, "s": sval}, batch_size=list(bs))
+        return C(inner=inner, z=_leaf(bs, (2,), 3 + salt), tag={"k": 1, "s": sval}, **kw)
     if cname == "Shadow":
-        return C(x=x, depth=y, s=sval, batch_size=list(bs))
-    return C(x=x, y=y, s=sval, batch_size=list(bs))
+        return C(x=x, depth=y, s=sval, **kw)
+    if cname == "AutoNest":
+        return C(z=_leaf(bs, (2,), 3 + salt), **kw)
+    return C(x=x, y=y, s=sval, **kw)
 
 
 def build(cname, layout, salt=0):
@@ -171,9 +182,7 @@ def build(cname, layout, salt=0):
     if layout == "plain":
         return _inst(cname, BS, salt)
     if layout == "named":
-        tc = _inst(cname, BS, salt)
-        tc.names = ["a", "b"]
-        return tc
+        return _inst(cname, BS, salt, names=["a", "b"])
     if layout in ("lazy", "lazyhet"):
         members = [_inst(cname, BS[1:], salt + i, "hi" if layout == "lazy" else f"hi{i}") for i in range(BS[0])]
         return t["lazy_stack"](members, 0)
@@ -483,6 +492,8 @@ def keys_of(cname, layout="plain"):
         return {"t": "z", "t2": "z", "nt": "tag", "none": None, "absent": "qq", "nested": ["tup", L("inner"), L("x")], "sub": "inner"}
     if cname == "Shadow":
         return {"t": "x", "t2": "depth", "nt": "s", "none": "o", "absent": "qq", "nested": None, "sub": None}
+    if cname == "AutoNest":
+        return {"t": "z", "t2": "z", "nt": "tag", "none": "inner", "absent": "qq", "nested": None, "sub": None}
     return {"t": "x", "t2": "y", "nt": "s", "none": "o", "absent": "qq", "nested": None, "sub": None}
 
 
@@ -933,6 +944,9 @@ def invoke(case, side):
     obs = {"status": "ok"}
     try:
         target, tc = subject_for(case, side)
+    except Exception as e:  # noqa: BLE001 -- a subject that cannot be built is a failure of its own, never a vacuous "both raise"
+        return {"status": "build-raise", "exc": exc_name(e), "msg": str(e)[:200]}
+    try:
         outer = case.get("embed") == "outer"
         if outer:
             mat = OuterMat(case, side, target, tmp)
@@ -1209,6 +1223,9 @@ def judge(case, o_tc, o_td, o_td2):
     cls = "C15" + cname
     outer = case.get("embed") == "outer"
     flags = []
+    for o in (o_tc, o_td, o_td2):
+        if o.get("status") == "build-raise":
+            return "fail", [f"the subject {case['cls']}/{case['layout']} cannot be constructed: {o.get('exc')}: {o.get('msg', '')[:120]}"], ["build"]
     unstable = o_td != o_td2
     if unstable:
         flags.append("unstable-reference")
@@ -1242,6 +1259,8 @@ def judge(case, o_tc, o_td, o_td2):
             return "ok", [], flags + ["frozen-rejects-mutation"]    # frozen=True: in-place operations are refused
         if o_td.get("instance_raises"):
             return "ok", [], flags + ["both-raise"]
+        if o_tc.get("exc") == "TypeError" and "Failed to cast" in o_tc.get("msg", "") and "autocast" in CLASS_INFO[cname][1]:
+            return "ok", [], flags + ["typed-cast-rejected"]     # autocast: a value that cannot become the declared type is refused
         if leaves_structure:
             return "ok", [], flags + ["nonmatching-structure-rejected"]
         return "fail", [f"the tensordict returns {short(ref)}, the tensorclass raises {o_tc['exc']}: {o_tc.get('msg', '')[:100]}"], flags + ["tc-raises-only"]
